@@ -371,6 +371,11 @@ func (x *X) Choices() []int {
 	return c
 }
 
+// MapPerm, when set, chooses the iteration order of every SortedMap range (a
+// permutation of 0..n-1 over the sorted keys): map iteration order is an
+// environment answer a harness can enumerate.
+var MapPerm func(n int) []int
+
 // SortedMap iterates a map in key order: Go randomises map iteration per
 // range statement, which the scheduler cannot own; the rewriter wraps the
 // ranges named by -sortrange so that executions are reproducible.
@@ -381,6 +386,15 @@ func SortedMap[M ~map[K]V, K cmp.Ordered, V any](m M) iter.Seq2[K, V] {
 			keys = append(keys, k)
 		}
 		slices.Sort(keys)
+		if MapPerm != nil {
+			// the harness owns the iteration order: position i gets the p[i]-th smallest key
+			if p := MapPerm(len(keys)); len(p) == len(keys) {
+				sorted := append([]K{}, keys...)
+				for i, j := range p {
+					keys[i] = sorted[j]
+				}
+			}
+		}
 		for _, k := range keys {
 			v, ok := m[k]
 			if !ok {
